@@ -28,8 +28,11 @@ def alphabet(cls, quick):
         par = ["Rx(x)", "Ry(x)", "Rz(x)", "Rz(2 * x + y)", "Rx(x / 2)", "Ry(-x)", "Rz(x * y)", "Rx(x ** 2)",
                "Rz(x + 0.5)", "Ry(y)", "CRz(x)", "CRx(x + y)", "CU1(x)", "CRz(x / 2)", "CU1(x * y)",
                "scalar(x)", "scalar(x + 1j * y)", "scalar(x ** 2, is_mixed=True)", "sqrt(x ** 2 + 1)",
-               "Rz(x).dagger()", "CRz(x + y).dagger()"]
-        fixed = ["H", "X", "CX", "Ket(0)", "Ket(1, 0)", "Bra(0)", "S", "Rz(0.3)"]
+               "Rz(x).dagger()", "CRz(x + y).dagger()",
+               "ClassicalGate('g', 1, 2, [x, y, 0, 1, 1, 0, x * y, 2])", "ClassicalGate('m', 1, 1, [x, 2 * x, y, 1])",
+               "ClassicalGate('g', 1, 2, [x, y, 0, 1, 1, 0, x * y, 2]).dagger()",
+               "ClassicalGate('m', 1, 1, [x, 2 * x, y, 1]).dagger()"]
+        fixed = ["H", "X", "CX", "Ket(0)", "Ket(1, 0)", "Bra(0)", "S", "Rz(0.3)", "Bits(1)", "Copy()"]
         return par, fixed
     par = ["Box('a', Dim(2), Dim(2), [x, y, 1, x * y])", "Box('c', Dim(1), Dim(2), [x ** 2, 1j * y])",
            "Box('b', Dim(2), Dim(3), [x, 0, 1, y, x + y, 2])", "Box('s', Dim(1), Dim(1), [x + 1j * y])",
